@@ -153,3 +153,55 @@ pub fn dt_saturating_add_seconds(d: D3, t: T4, seconds: i32) -> (D3, T4) {
     let dt = IDateTime { date: idate(d), time: itime(t) }.saturating_add_seconds(seconds);
     (d3(dt.date), t4(dt.time))
 }
+
+// ---- POSIX TZ rules (shared::posix) with the rule given field by field
+use crate::shared::{PosixDay, PosixDayTime, PosixDst, PosixOffset, PosixRule, PosixTime, PosixTimeZone as SharedPosix};
+
+#[inline(always)]
+fn posix_day(kind: u8, a: i16, b: i8, c: i8) -> PosixDay {
+    match kind {
+        0 => PosixDay::JulianOne(a),
+        1 => PosixDay::JulianZero(a),
+        _ => PosixDay::WeekdayOfMonth { month: a as i8, week: b, weekday: c },
+    }
+}
+#[inline(always)]
+pub fn posix_tz(std: i32, dst: i32, sk: u8, sa: i16, sb: i8, sc: i8, st: i32, ek: u8, ea: i16, eb: i8, ec: i8, et: i32) -> SharedPosix<&'static str> {
+    SharedPosix {
+        std_abbrev: "STD",
+        std_offset: PosixOffset { second: std },
+        dst: Some(PosixDst {
+            abbrev: "DST",
+            offset: PosixOffset { second: dst },
+            rule: PosixRule {
+                start: PosixDayTime { date: posix_day(sk, sa, sb, sc), time: PosixTime { second: st } },
+                end: PosixDayTime { date: posix_day(ek, ea, eb, ec), time: PosixTime { second: et } },
+            },
+        }),
+    }
+}
+/// (to_offset, to_offset_info.offset, to_offset_info.is_dst, abbreviation is "DST")
+#[inline(always)]
+pub fn posix_offsets(tz: &SharedPosix<&'static str>, second: i64, nanosecond: i32) -> (i32, i32, bool, bool) {
+    let ts = ITimestamp { second, nanosecond };
+    let off = tz.to_offset(ts);
+    let (ioff, _abbrev, is_dst) = tz.to_offset_info(ts);
+    (off.second, ioff.second, is_dst, is_dst)
+}
+#[inline(always)]
+pub fn posix_next(tz: &SharedPosix<&'static str>, second: i64, nanosecond: i32) -> Option<(i64, i32, i32, bool)> {
+    tz.next_transition(ITimestamp { second, nanosecond }).map(|(t, o, _, d)| (t.second, t.nanosecond, o.second, d))
+}
+#[inline(always)]
+pub fn posix_prev(tz: &SharedPosix<&'static str>, second: i64, nanosecond: i32) -> Option<(i64, i32, i32, bool)> {
+    tz.previous_transition(ITimestamp { second, nanosecond }).map(|(t, o, _, d)| (t.second, t.nanosecond, o.second, d))
+}
+/// classification of a civil datetime: (kind 0=unambiguous 1=gap 2=fold, before/offset, after)
+#[inline(always)]
+pub fn posix_ambiguous(tz: &SharedPosix<&'static str>, d: D3, t: T4) -> (u8, i32, i32) {
+    match tz.to_ambiguous_kind(IDateTime { date: idate(d), time: itime(t) }) {
+        IAmbiguousOffset::Unambiguous { offset } => (0, offset.second, offset.second),
+        IAmbiguousOffset::Gap { before, after } => (1, before.second, after.second),
+        IAmbiguousOffset::Fold { before, after } => (2, before.second, after.second),
+    }
+}
